@@ -822,7 +822,7 @@ impl Engine for E3 {
         out.strategy = case.sched.name();
         let mut kc = KConfig::new(case.sched.seed, case.sched.strategy(60));
         kc.record_trace = want_trace;
-        kc.step_cap = 20_000;
+        kc.step_cap = 60_000;
         let c2 = case.clone();
         let r = Kernel::run(kc, move || sim_main(c2));
         out.steps = r.steps;
